@@ -390,6 +390,7 @@ func (cx *Ctx) c08Callback(r *Report) {
 	} else {
 		r.violate("callback-threshold", "ResponseCallback", cx.P.Pos(sites[0].Pos()), fmt.Sprintf("%d callback invocations (expected the two sides of the threshold test)", len(sites)))
 	}
+	cx.callbackOutputsFiltered(r, sites)
 	// F called only from the completion function G, under ModuleName != ""
 	// (call sites in functions that no message, block or callback entry reaches - an exported
 	// convenience wrapper left for other modules - dispatch nothing on this chain)
